@@ -251,6 +251,133 @@ def hol_cases(B, progs, dirs, tier, seed, rep, stats):
 
 
 
+# ---- the consequence the multicomplex method relies on: COMPONENT-WISE accuracy.  For zeta = x + delta*(i a + j b) the four
+# components of F(zeta) have the sizes 1, delta, delta, delta^2 (f, delta f', delta f', delta^2 f''); each must be accurate relative to
+# ITS OWN size ("imag1 and imag12 equal h f' and h^2 f'' up to O(h^2) relative truncation"), not merely relative to |F|.
+def _bmul(u, v):
+    a, b, c, d = u
+    e, f, g, h = v
+    return (a * e - b * f - c * g + d * h, a * f + b * e - c * h - d * g, a * g + c * e - b * h - d * f, a * h + d * e + b * g + c * f)
+
+
+def _extra_jets(name, u):
+    import fjets as J
+    if name == 'sec':
+        return J.div(J.const(1), J.sincos(u)[1])
+    if name == 'csc':
+        return J.div(J.const(1), J.sincos(u)[0])
+    if name == 'cot':
+        s, c = J.sincos(u)
+        return J.div(c, s)
+    if name == 'sech':
+        return J.div(J.const(1), J.sinhcosh(u)[1])
+    if name == 'csch':
+        return J.div(J.const(1), J.sinhcosh(u)[0])
+    if name == 'coth':
+        s, c = J.sinhcosh(u)
+        return J.div(c, s)
+    if name == 'exp2':
+        return J.exp(J.scale(math.log(2.0), u))
+    if name == 'log2':
+        return J.scale(1 / math.log(2.0), J.log(u))
+    if name == 'log10':
+        return J.scale(1 / math.log(10.0), J.log(u))
+    if name == 'arccos':
+        a = J.arcsin(u)
+        return [math.acos(u[0])] + [-t for t in a[1:]]
+    if name == 'arccosh':
+        if u[0] < 1.2:
+            raise J.DomainError('arccosh close to 1')
+        return J.integrate(math.acosh(u[0]), u, J.div(J.const(1), J.sqrt(J.addc(J.mul(u, u), -1.0))))
+    if name == 'ipow-1':
+        return J.div(J.const(1), u)
+    if name == 'ipow-2':
+        return J.div(J.const(1), J.mul(u, u))
+    if name == 'ipow4':
+        return J.ipow(u, 4)
+    if name == 'ipow5':
+        return J.ipow(u, 5)
+    if name == 'pow2.5':
+        return J.power(u, 2.5)
+    raise KeyError(name)
+
+
+GRADED_EXTRA = ('sec', 'csc', 'cot', 'sech', 'csch', 'coth', 'exp2', 'log2', 'log10', 'arccos', 'arccosh', 'ipow-1', 'ipow-2', 'ipow4', 'ipow5', 'pow2.5')
+GRADED_LOSSY = ('arcsin', 'arctan', 'arccos')
+GRADED_POINTS = (0.3, -0.4, 0.8, -1.7, 2.5)
+GRADED_TOL = 1e-10
+
+
+def graded_cases(B, progs, tier, seed, rep, stats):
+    import fjets
+    rnd = random.Random(seed + 5)
+    items, seen = [], set()
+    for r in progs:
+        k = tuple(r['prog'])
+        if k in seen:
+            continue
+        seen.add(k)
+        for p in GRADED_POINTS:
+            try:
+                j = fjets.run_program(r['prog'], 1.0, p)
+            except fjets.DomainError:
+                continue
+            items.append(('.'.join(r['prog']), p, j, [o for o in GRADED_LOSSY if o in r['prog']], r['prog']))
+    for name in GRADED_EXTRA:
+        for p in GRADED_POINTS + (1.6, -2.2):
+            try:
+                j = _extra_jets(name, fjets.var(p, 1.0))
+            except (fjets.DomainError, ValueError, ZeroDivisionError):
+                continue
+            if all(math.isfinite(t) for t in j):
+                items.append((name, p, j, [o for o in GRADED_LOSSY if o == name], None))
+    if tier == 'quick' and len(items) > 1500:
+        items = rnd.sample(items, 1500)
+    for name, p, jet, lossy, prog in items:
+        rho = exprs.radius_estimate([list(float(v).as_integer_ratio()) for v in jet])
+        for sh in (26, 20, 13, 7):
+            for (a, b) in ((1.0, 1.0), (1.0, 0.5)):
+                delta = 2.0 ** -sh * max(abs(p), 1.0)
+                if delta * 2 > rho / 8:
+                    stats['graded_skipped'] += 1
+                    continue
+                e, pw = (0.0, a, b, 0.0), (1.0, 0.0, 0.0, 0.0)
+                want, size = np.zeros(4), np.zeros(4)
+                for k, ck in enumerate(jet):
+                    want += ck * delta ** k * np.array(pw)
+                    size += abs(ck) * delta ** k * np.abs(pw)
+                    pw = _bmul(pw, e)
+                trunc = max(abs(t) for t in jet) * (delta * 2 * 8 / rho) ** len(jet) if rho != float('inf') else 0.0
+                Z = mk(B, [p, a * delta, b * delta, 0.0], (2,) if sh == 20 else None)
+                try:
+                    with np.errstate(all='ignore'):
+                        if prog is not None:
+                            got = comps(exprs.make_fun(prog, 1.0, 0.0, powop=(sh % 4 == 0))(Z))
+                        else:
+                            got = comps(bfun(name, Z, B))
+                except Exception as ex:
+                    rep.violation('graded-raises:' + name, dict(fn=name, x=p, delta=delta), '%s raised %r at %r + %g*(i%g + j%g)' % (name, ex, p, delta, a, b))
+                    break
+                g = got.reshape(4, -1)[:, 0]
+                # sizes of the four components: f, delta f', delta f', delta^2 f'' (plus higher terms); a component that vanishes
+                # identically is judged against the next smaller one
+                lvl = np.array([1.0, delta, delta, delta * delta]) * max(abs(t) for t in jet[:5])
+                tol = GRADED_TOL * np.maximum(size, 1e-2 * lvl) + trunc
+                ratio = float(np.max(np.abs(g - want) / tol))
+                stats['graded'] += 1
+                if not lossy:
+                    stats['max_graded_ratio'] = max(stats['max_graded_ratio'], ratio)
+                if not ratio <= 1.0:
+                    i = int(np.argmax(np.abs(g - want) / tol))
+                    rep.violation('graded:' + ('+'.join(lossy) if lossy else name), dict(fn=name, x=p, delta=delta, a=a, b=b, got=g.tolist(), want=want.tolist(), component=i),
+                                  '%s at %r + %g*(i*%g + j*%g): component %s = %r, Taylor series of the holomorphic extension %r (relative error %.3g of that component, tolerance %g)' % (
+                                      name, p, delta, a, b, ('real', 'imag1', 'imag2', 'imag12')[i], g[i], want[i], abs(g[i] - want[i]) / max(size[i], 1e-300), GRADED_TOL))
+                    break
+            else:
+                continue
+            break
+
+
 OBJ_FNS = ['log', 'sqrt', 'pow1.5', 'pow-0.5', 'ipow3', 'ipow-1', 'recip', 'powz', 'arcsin', 'arccos', 'arctanh', 'log1p', 'log2', 'log10',
            'exp', 'tan', 'sec', 'cot', 'csch', 'arcsinh', 'expm1']
 OBJ_VALS = {1: [0.5, 0.0, 0.0, 0.0], 2: [0.75, 0.015625, 0.03125, -0.0078125], 3: [0.375, -0.03125, 0.0625, 0.015625], 4: [0.625, 0.0, 0.125, 0.0]}
@@ -327,10 +454,12 @@ def run(tier, rep):
         cfg = cfg.replace('MaxOps = 2', 'MaxOps = 3')
     pres = vlib.tlc('ExprMachine', cfg_text=cfg, tag='expr_c12', timeout=3000)
     vlib.require_ok(pres)
-    stats = dict(obj_histories=0, obj_applies=0, ring=0, fun=0, hol=0, skipped=0, skipped_zero_divisor=0, max_fun_ratio=0.0, max_hol_ratio=0.0)
+    stats = dict(obj_histories=0, obj_applies=0, ring=0, fun=0, hol=0, skipped=0, skipped_zero_divisor=0, max_fun_ratio=0.0, max_hol_ratio=0.0, graded=0, graded_skipped=0, max_graded_ratio=0.0)
     ring_cases(B, [r for r in res.records if r['fam'] in ('ring', 'near')], rep, stats)
     fun_cases(B, [r for r in res.records if r['fam'] == 'fun'], rep, stats)
     hol_cases(B, pres.records, [r for r in res.records if r['fam'] == 'dir'], tier, seed, rep, stats)
+    if vlib.flag('graded'):
+        graded_cases(B, pres.records, tier, seed, rep, stats)
     ores = obj_histories(B, tier, seed, rep, stats)
     states, trans, per = vlib.merge_tlc([res, pres, ores])
     cov = dict(states=states, transitions=trans, traces_validated_against_impl=stats['ring'] + stats['fun'] + stats['hol'] + stats['obj_histories'],
